@@ -29,6 +29,14 @@ Theorem C12_nz_no_raw_attrs : forall n src s html s',
 Proof. exact doc_render_no_raw_attrs. Qed.
 Print Assumptions C12_nz_no_raw_attrs.
 
+(* a line block (header, block image, anchor ...) that renders anything has applied and consumed every pending
+   class, id, css and attribute: nothing is left for a later block *)
+Theorem C12_line_block_consumes : forall fuel defs rd allowed s r s',
+  lineblocks_loop fuel defs rd allowed s = Ok (r, s') ->
+  match fst r with Some (_ :: _) => pending_empty s' | _ => True end.
+Proof. intros fuel defs rd allowed s r s' H. exact (lineblocks_consume fuel defs rd allowed s r s' H). Qed.
+Print Assumptions C12_line_block_consumes.
+
 Example C12_ex :
   match api_render 40 ($".cls #i" ++ [10] ++ $"one" ++ [10; 10] ++ $"two") (mkOpts PyNone PyNone PyNone false) S0 with
   | Ok (html, _) => str_eqb html ($"<p class=""cls"" id=""i"">one</p>" ++ [10] ++ $"<p>two</p>")
